@@ -537,6 +537,13 @@ def _gen_nm(rng, tier, kind=None):
         x0 = [rng.choice([1.5, -1.0, 2.0, 0.5]) for _ in range(n)]
         mi, mf = rng.choice([(None, 4000), (4000, None), (None, None)])
         return dict(kind=kind, obj=obj, x0=x0, xtol=1e-300, ftol=1e-300, maxiter=mi, maxfun=mf, stream="default-limits")
+    if u > 0.95:
+        # zero-heavy starts at a kink of the objective: where the one-ulp zero-coordinate step of the initial simplex can matter
+        n = rng.choice([1, 2, 2, 3])
+        obj = gen_objective(rng, n, fams=["max", "max", "l1", "floor", "step"])
+        obj["c"] = [rng.choice([0.0, 0.0, 1.0, -0.5]) for _ in range(n)]
+        return dict(kind=kind, obj=obj, x0=[rng.choice([0.0, 0.0, 0.0, 1.0]) for _ in range(n)], xtol=xtol, ftol=ftol,
+                    maxiter=None, maxfun=None, stream="zero-start")
     full = rng.random() < (0.12 if tier == "quick" else 0.3) and n <= 3
     if full:
         mi, mf = None, None
